@@ -1,7 +1,7 @@
 from __future__ import annotations
 
 from functools import update_wrapper
-from types import FunctionType, MethodType
+from types import FunctionType
 from typing import Callable, Generic, TypeVar
 
 from .._state import state
@@ -61,9 +61,13 @@ class Inherit(Generic[F]):
                 continue
             patched = contracts.wrap(patched)
 
-        method = MethodType(patched, self._cls)
-        setattr(self._cls, self._func_name, method)
-        return method
+        setattr(self._cls, self._func_name, patched)
+        return patched
+
+    def __get__(self, instance, owner=None):
+        if self._cls is None:
+            return self
+        return self._patch().__get__(instance, owner)
 
     def __call__(self, *args, **kwargs):  # type: ignore[no-redef]
         method = self._patch()
